@@ -18,7 +18,9 @@ def run(tier, seed):
     quick = tier != "thorough"
     dirs = ["BT", "LR", "sideways"] if quick else ["BT", "TB", "LR", "RL", "sideways"]
     runs = [("graph", 2 if quick else 3, "min", ["entity"]), ("shapes", 2, "min", ["entity", "start"]),
-            ("shapes", 1, "attrs", ["agent", "derivation"])]
+            ("shapes", 1, "attrs", ["agent", "derivation"]),
+            # blank-node relations at top level and in a bundle; a bundle stating one element twice
+            ("dotb", 1, "min", ["entity"])]
     behaviours = []
     stA = stT = 0
     wall = 0.0
